@@ -96,6 +96,7 @@ type c18Case struct {
 	Cmps   [][2]string `json:"cmps"`
 	CVers  []string    `json:"cvers,omitempty"`  // shared version list of the enumerated constraints
 	CPairs []c18CPair  `json:"cpairs,omitempty"` // constraint language: NewConstraint / Check vs the model
+	OCI    []c18OCI    `json:"oci,omitempty"`    // paged OCI tag listings and version queries (c18_oci.go)
 }
 
 // ---- observation ----
@@ -161,6 +162,7 @@ type c18Obs struct {
 	CValid   map[string]bool            `json:"cvalid"`
 	Sat      map[string]map[string]bool `json:"sat"`
 	CPairs   []c18OCPair                `json:"cpairs,omitempty"`
+	OCI      []c18OOCI                  `json:"oci,omitempty"`
 	Panic    string                     `json:"panic,omitempty"`
 }
 
@@ -519,6 +521,11 @@ func (*c18) Execute(ci any) (res any) {
 		obs.Res = append(obs.Res, or)
 	}
 
+	// OCI tag listings through the registry stub
+	for _, q := range c.OCI {
+		obs.OCI = append(obs.OCI, c18RunOCI(q))
+	}
+
 	// parse / compare
 	for _, p := range c.Cmps {
 		a, va := c18ParseObs(p[0])
@@ -762,6 +769,12 @@ func (*c18) Oracle(ci, oi any) []hx.Violation {
 			}
 		}
 	}
+	// OCI tag listings
+	for i, q := range c.OCI {
+		if i < len(obs.OCI) {
+			c18OCIOracle(q, obs.OCI[i], bad)
+		}
+	}
 	// dependency resolution
 	for i, ds := range c.Res {
 		if i >= len(obs.Res) {
@@ -989,8 +1002,14 @@ func (*c18) CoqCase(ci, oi any) string {
 			cpairs = append(cpairs, fmt.Sprintf("(%s, %s, %s)", hx.CoqStr(p.Constraint), hx.CoqStrList(p.Versions), o))
 		}
 	}
-	return fmt.Sprintf("mkCase %s\n  %s\n  %s\n  %s\n  %s\n  %s\n  %s\n  %s\n  %s\n  %s\n  %s", file, hx.CoqList(cvalid), hx.CoqList(sat), load,
-		hx.CoqList(gets), hx.CoqList(tags), hx.CoqList(ress), hx.CoqList(cmps), hx.CoqStrList(c.CVers), hx.CoqList(cfix), hx.CoqList(cpairs))
+	var ocis []string
+	for i, q := range c.OCI {
+		if i < len(obs.OCI) {
+			ocis = append(ocis, c18CoqOCI(q, obs.OCI[i]))
+		}
+	}
+	return fmt.Sprintf("mkCase %s\n  %s\n  %s\n  %s\n  %s\n  %s\n  %s\n  %s\n  %s\n  %s\n  %s\n  %s", file, hx.CoqList(cvalid), hx.CoqList(sat), load,
+		hx.CoqList(gets), hx.CoqList(tags), hx.CoqList(ress), hx.CoqList(cmps), hx.CoqStrList(c.CVers), hx.CoqList(cfix), hx.CoqList(cpairs), hx.CoqList(ocis))
 }
 
 // distribution of the constraint strings given to NewConstraint / Check (report: extra)
@@ -1007,6 +1026,9 @@ func (*c18) Class(ci, oi any) string {
 	c := ci.(c18Case)
 	if len(c.CVers) > 0 {
 		return "constraint-enumeration"
+	}
+	if len(c.OCI) > 0 && len(c.Gets) == 0 && len(c.File.Charts) == 0 {
+		return "oci-listing"
 	}
 	cl := c.File.Mode
 	if (c.File.Mode == "yaml" || c.File.Mode == "json") && c.File.API == "" {
